@@ -1085,12 +1085,8 @@ static PyObject * matrix_imag(matrix *self) {
 
   matrix *ret;
   if (self->id != COMPLEX) {
-    PyObject *a = PyFloat_FromDouble(0);
-    ret = Matrix_NewFromNumber(self->nrows, self->ncols, self->id, a, 2);
-    Py_DECREF(a);
-    if (!ret) return NULL;
-
-    return (PyObject *)ret;
+    /* Matrix_New returns a zero matrix (of the integer or real type) */
+    return (PyObject *)Matrix_New(self->nrows, self->ncols, self->id);
   }
 
   if (!(ret = Matrix_New(self->nrows, self->ncols, DOUBLE)))
